@@ -83,6 +83,15 @@ CHECKS = {
              'is_/get_/constructor helpers, ready void-tag instances, validators, alias bindings, route objects (name, version, deprecated, '
              'validators, attrs) and ROUTES.',
         ref='3.7, 4 (C09)'),
+    'C10': dict(
+        technique='TLA+ spec StoneDefaultsMC (documented compile-time rule CompileLit vs runtime rule StoneRuntime!Accepts; ExampleValue denotation of example declarations) explored by TLC; every state replayed through the compiler and the generated classes',
+        text='TLC enumerates 22 field types x 46 default literals and checks DefaultsValid (every literal the documented rule accepts is a '
+             'value the runtime rule accepts), and 340 (type shape, example label) pairs over 10 slot types and checks ExamplesValid (the '
+             'denoted value is valid, its document decodes strictly to it and encodes back). Replay: each default is compiled; whatever the '
+             'real compiler accepts is read from the unset field of the generated class, compared with the declared default and assigned '
+             'back (must be accepted); each computed example (get_examples) must equal the denoted document, decode strictly to the '
+             'denoted value and re-encode to the same document.',
+        ref='3.4, 4 (C10)'),
     'C11': dict(
         technique='TLA+ authoring machine StoneSemMC (WriteDef/Finish: every order, file split and file order are behaviours) explored by TLC with invariant OrderFree; all layouts of an instance compiled and compared',
         text='TLC checks on the model that verdict, rule attribution and denoted API are independent of definition order, of the split '
